@@ -202,6 +202,80 @@ def _deletion_predicate(su):
     return pred
 
 
+def _injectivity(ctx: Ctx) -> None:
+    """distinct ids never get the same storage prefix, assuming SHA-256 has no collision on the first 8 hex characters FOR DIFFERENT
+    HASH INPUTS (what the function feeds to the hash is part of the encoding: two ids that reach the hash as the same text collide)."""
+    import z3
+    from engine import strsym
+    from pynenc.util import sqlite_utils as su
+    NMAX = 9
+    t0 = time.time()
+    queries = 0
+    found = None
+    inconclusive = None
+    for nA in range(0, NMAX + 1):
+        for nB in range(nA, NMAX + 1):
+            it = strsym.StrInterp()
+            A = strsym.SymStr([z3.Int(f"a{i}") for i in range(nA)])
+            B = strsym.SymStr([z3.Int(f"b{i}") for i in range(nB)])
+            dom = [z3.And(c >= 0, c <= 0x10FFFF) for c in A.chars + B.chars]
+            try:
+                pathsA = it.run(su.sanitize_table_prefix, A)
+                pathsB = it.run(su.sanitize_table_prefix, B)
+            except strsym.Unsupported as e:
+                ctx.oblige("prefix-injective", None, f"Unsupported: {e}")
+                return
+            differ = z3.BoolVal(True) if nA != nB else (z3.Or(*[x != y for x, y in zip(A.chars, B.chars)]) if nA else z3.BoolVal(False))
+            # no-collision assumption, stated on the hash INPUTS recorded by the interpreter
+            nocoll = []
+            memo = it.hash_memo
+            for i in range(len(memo)):
+                for j in range(i + 1, len(memo)):
+                    (s1, d1), (s2, d2) = memo[i], memo[j]
+                    same_in = z3.BoolVal(False) if len(s1) != len(s2) else (z3.And(*[x == y for x, y in zip(s1.chars, s2.chars)]) if len(s1) else z3.BoolVal(True))
+                    nocoll.append(z3.Implies(z3.Not(same_in), z3.Or(*[x != y for x, y in zip(d1[:8], d2[:8])])))
+            for pcA, pA in pathsA:
+                for pcB, pB in pathsB:
+                    if len(pA) != len(pB):
+                        continue
+                    s = z3.Solver()
+                    s.set("timeout", 60000)
+                    s.add(*dom, *pcA, *pcB, *it.side, *nocoll, *strsym.ascii_axioms(A.chars + B.chars + pA.chars + pB.chars), differ,
+                          z3.And(*[x == y for x, y in zip(pA.chars, pB.chars)]))
+                    t1 = time.time()
+                    v = str(s.check())
+                    queries += 1
+                    ctx.solver_time += time.time() - t1
+                    if v == "sat" and found is None:
+                        m = s.model()
+                        found = (strsym.model_str(m, A), strsym.model_str(m, B))
+                    elif v not in ("sat", "unsat"):
+                        inconclusive = f"solver {v} at |A|={nA} |B|={nB}"
+            if found:
+                break
+        if found:
+            break
+    ctx.evaluations += queries
+    ctx.extra["prefix_injectivity_queries"] = queries
+    ctx.extra["prefix_injectivity_wall_s"] = round(time.time() - t0, 1)
+    ctx.bounds["prefix injectivity"] = f"two ids of 0..{NMAX} arbitrary code points each, every pair of paths of sanitize_table_prefix; SHA-256 modelled as a function without collisions on the first 8 hex characters"
+    if found:
+        a, b = found
+        ra, rb = su.sanitize_table_prefix(a), su.sanitize_table_prefix(b)
+        if a != b and ra == rb:
+            ctx.oblige("prefix-injective", False, f"ids {a!r} and {b!r} share the prefix {ra!r}")
+            ctx.report_violation("C17:two-ids-share-one-storage-prefix", f"sanitize_table_prefix({a!r}) == sanitize_table_prefix({b!r}) == {ra!r}: the two applications share every table",
+                                 {"kind": "script", "script": f"from pynenc.util.sqlite_utils import sanitize_table_prefix as f\na, b = {a!r}, {b!r}\nprint(f(a), f(b))\nprint('REPLAY: REPRODUCED' if a != b and f(a) == f(b) else 'REPLAY: HOLDS')"})
+        else:
+            ctx.oblige("prefix-injective", None, f"model {a!r} / {b!r} does not replay on the real function ({ra!r} / {rb!r})")
+            ctx.errors.append(f"C17 prefix-injective: counterexample {a!r} / {b!r} does not reproduce")
+    elif inconclusive:
+        ctx.oblige("prefix-injective", None, inconclusive)
+    else:
+        ctx.oblige("prefix-injective", True, f"unsat for all id lengths 0..{NMAX} x 0..{NMAX} ({queries} queries)")
+        ctx.nontrivial.add("prefix-injective")
+
+
 def _purge_reach(ctx: Ctx) -> None:
     """exists A != B (no hash collision): a table of B is emptied when A purges a component?"""
     import z3
@@ -431,6 +505,7 @@ def canary_same_id(o1: int) -> bool:
 
 def run(ctx: Ctx) -> None:
     _safety_queries(ctx)
+    _injectivity(ctx)
     _purge_reach(ctx)
     src = ISO
     conds = []
@@ -445,6 +520,7 @@ def run(ctx: Ctx) -> None:
     ctx.functions_encoded += ["pynenc.util.sqlite_utils.sanitize_table_prefix (AST -> bounded character arrays)",
                               "every component's purge() and the SQLite table naming, through two real apps on one database file"]
     ctx.bounds = {
+        **ctx.bounds,
         "sql safety": f"every id of length 0..{MAXLEN}, code points 0..0x10FFFF; SHA-256 = 8 fresh lowercase-hex chars per id (uninterpreted function)",
         "purge reach": "ids of printable ASCII, |A| = 2, B long enough to contain A's component prefix; LIKE with '_' wildcard and ASCII case folding",
         "operation level": "12 adversarial ids (case/punctuation variants, quotes, semicolons, LIKE wildcards, unicode, empty, leading digit), all ordered pairs, 1 op (thorough: 2 ops) on A out of 9 (route, status, register, each purge, app.purge), both stacks",
